@@ -178,7 +178,7 @@ impl PieceType for Pawn {
 }
 
 impl Board {
-    fn is_legal_king_position(&self, king_pos: Pos) -> bool {
+    pub(crate) fn is_legal_king_position(&self, king_pos: Pos) -> bool {
         let bishop_rays = chess_lookup::bishop_rays(king_pos);
         let rook_rays = chess_lookup::rook_rays(king_pos);
 
